@@ -68,6 +68,10 @@ CHECKS = {
    text="Lookups.tla defines, from the specification's own machine state, the requests every operation sends to the memory and bitwise chiplets and to the range checker (the four helper limbs of each u32 operation, per u32_ops.md) and the number of hasher rows each block / batch / HPERM / MPVERIFY / MRUPDATE consumes. While TLC validates the recorded rows of an execution against MidenVM.tla (TV_VM) it accumulates these requests and, at the end, requires bag equality with what the trace provides: the memory chiplet's rows (ctx, addr, clk, read/write, word), the results of the bitwise cycles, the range table's (value, multiplicity) rows (requests = u32 limbs + the memory chiplet's delta limbs) and the length of the hasher segment. For the same executions the real auxiliary columns are built for k independently drawn (CSPRNG) challenge vectors and every running-product / LogUp column must end in the value Lookups!Terminal prescribes (block stack, block hash, op group tables, chiplets bus, and - without a kernel - the chiplets virtual table: 1; range bus: its initial value). Programs cover every feature class: single / multi-batch spans (incl. one-operation batches), split, loop, call, syscall, dynexec, dyncall, unused kernels, every chiplet-talking operation incl. MSTREAM / PIPE and Merkle operations (also a Merkle update that writes the value already stored), every native operation at depth 16 / 17 / deeper.",
    note="Trusted: TLC; miden-crypto primitives for the Merkle tree in the advice provider. The stack overflow table's and the kernel procedure table's terminal values depend on public inputs: the former is asserted by the AIR (C03), the latter is recorded (the documentation's rule leaves open which rows of the kernel ROM enter the table). Binding self-test: a recording with one corrupted memory row must be rejected.",
    tech="TLA+ request multisets computed during trace validation (impl -> spec) compared with recorded chiplet / range rows; terminal values of the real auxiliary columns under random challenges against the spec's contract", ref="DESIGN.md §4 C12"),
+ "C10": dict(cat="exploration",
+   text="GEN_Ast.tla enumerates abstract syntax trees: unit kind (program / library module) x every window of the table of instruction forms (every instruction with every immediate form, 296 forms) x 8 nesting shapes (if/else, while, repeat to depth 3), and every combination of boundary values of the length-prefixed fields of the encoding (doc comments 0 / 1 / 65000 characters, procedure names 1 / 40 / 255, import paths 10 / 255 / 256 / 700 / 1023, locals 0 / 1 / 3 / 65535, procedure counts, re-exports). Every scenario is rendered to Miden assembly and put through the real code in two build profiles: parse -> to_bytes -> from_bytes must give an equal AST that re-encodes to the same bytes (with and without imports); source locations written separately and reloaded must restore equality; compiling the round-tripped AST must give the same MAST root, kernel and execution outcome as compiling the original; the compiled-library file holding the imported module must round-trip with and without source locations; stack inputs / outputs, kernels and program info are round-tripped over boundary values (execution proofs in C01).",
+   note="Exploration: the oracle is identity; the TLA+ specification contributes the enumeration of the space (TLC) and its coverage accounting. Sources the parser itself refuses are not round-tripped.",
+   tech="TLA+-enumerated scenario space (TLC) replayed on the real parser / serialisers / assembler with an identity oracle", ref="DESIGN.md §4 C10"),
 }
 
 NOT_APPLICABLE = {
